@@ -31,6 +31,19 @@ def c11(work, tier, seed):
                 steps = fs.session(token)[:4] + [{"k": "data", "cls": "valid", "n": 10}]
                 scripts.append({"id": "d%05d" % len(scripts), "origin": "opened/%s/stalled" % cause, "cfg": fs.base_cfg(token), "transport": tr,
                                 "tun": dict(fs.H_A, user="user1" if token else "nuser1"), "steps": steps, "point": "opened", "cause": cause, "inflight": "stalled"})
+    # the gateway reached over TLS (closing a connection then means sending an alert first, which fails on a connection
+    # the client has reset): every way of ending at two points of the exchange
+    for tr in ("ws", "legacy"):
+        causes = ["close-channel", "protocol-error"] + (["fin:ws", "rst:ws"] if tr == "ws" else ["fin:in", "rst:in", "fin:out", "rst:out"])
+        for point in ("hs", "opened"):
+            for cause in causes:
+                for fl in (["none", "b2c"] if point == "opened" else ["none"]):
+                    if tier == "quick" and fl == "b2c" and not cause.startswith("rst"):
+                        continue
+                    token = len(scripts) % 2 == 0
+                    steps = fs.session(token)[:4] + [{"k": "data", "cls": "valid", "n": 10}]
+                    scripts.append({"id": "d%05d" % len(scripts), "origin": "%s/%s/%s/tls" % (point, cause, fl), "cfg": dict(fs.base_cfg(token), tls=True), "transport": tr,
+                                    "tun": dict(fs.H_A, user="user1" if token else "nuser1"), "steps": steps, "point": point, "cause": cause, "inflight": fl})
     # legacy: the client has sent a second RDG_OUT_DATA request under the same connection identifier before the tunnel ends
     for point in ("hs", "opened"):
         for cause in ("close-channel", "protocol-error", "fin:in", "rst:in"):
